@@ -2,6 +2,8 @@
 (* Trace validation for C19 (obligation T: impl -> spec), monitor style.     *)
 (* Events recorded from the real Recursor over a simulated internet:         *)
 (*   reset   case net q lim      new recursor over this internet             *)
+(*   question n phase            n client questions are put to the recursor  *)
+(*                               (n = 2: the same question twice, at once)   *)
 (*   ask     ip qn qt phase recs an upstream query reached address ip; recs  *)
 (*                               is everything the server sent back (all     *)
 (*                               sections); phase 2 = the network is down    *)
@@ -11,6 +13,8 @@
 (*                               a name a hostile server mentioned           *)
 (*   end     asked               number of upstream queries of the           *)
 (*                               resolution                                  *)
+(*   acs     addr acs denied     (filter layer) AccessControlSet::denied     *)
+(*                               said `denied` for this address and lists    *)
 (*   stub    chain end per asked kind   (stub resolver layer) CachingClient  *)
 (*                               followed a chain of `chain` aliases ending  *)
 (*                               in an address / nothing / a loop and made   *)
@@ -22,20 +26,21 @@ EXTENDS RecursorOps, TLC, Json, IOUtils
 
 Rec0 == ndJsonDeserialize(IOEnv.TRACE)
 
-VARIABLES l, caseId, net, lim, bound, log, n1, skipping
+VARIABLES l, caseId, net, lim, bound, log, n1, nq, qfrom, skipping
 
-tvars == <<l, caseId, net, lim, bound, log, n1, skipping>>
-state == <<caseId, net, lim, bound, log, n1>>
+tvars == <<l, caseId, net, lim, bound, log, n1, nq, qfrom, skipping>>
+state == <<caseId, net, lim, bound, log, n1, nq, qfrom>>
 
 Range(s) == {s[i] : i \in DOMAIN s}
+AcsOf(j) == [allow |-> Range(j.allow), deny |-> Range(j.deny)]
 NetOf(j) ==
     [zones |-> {[apex |-> z.apex, ips |-> Range(z.ips), serving |-> Range(z.serving), recs |-> Range(z.recs),
                  cuts |-> Range(z.cuts)] : z \in Range(j.zones)},
-     roots |-> Range(j.roots), inj |-> Range(j.inj), denyS |-> Range(j.denyS), denyA |-> Range(j.denyA)]
-NoNet == [zones |-> {}, roots |-> {}, inj |-> {}, denyS |-> {}, denyA |-> {}]
+     roots |-> Range(j.roots), inj |-> Range(j.inj), conc |-> j.conc, denyS |-> AcsOf(j.denyS), denyA |-> AcsOf(j.denyA)]
+NoNet == [zones |-> {}, roots |-> {}, inj |-> {}, conc |-> [x \in {} |-> 0], denyS |-> NoFilter, denyA |-> NoFilter]
 
 Init ==
-    /\ l = 1 /\ caseId = "none" /\ net = NoNet /\ lim = [ns |-> 0, rec |-> 0] /\ bound = 0 /\ log = <<>> /\ n1 = 0
+    /\ l = 1 /\ caseId = "none" /\ net = NoNet /\ lim = [ns |-> 0, rec |-> 0] /\ bound = 0 /\ log = <<>> /\ n1 = 0 /\ nq = 1 /\ qfrom = 1
     /\ skipping = FALSE
 
 e == Rec0[l]
@@ -43,7 +48,7 @@ e == Rec0[l]
 Reset ==
     /\ e.ev = "reset"
     /\ caseId' = e.case /\ net' = NetOf(e.net) /\ lim' = e.lim /\ bound' = Bound(NetOf(e.net), e.lim)
-    /\ log' = <<>> /\ n1' = 0 /\ skipping' = FALSE
+    /\ log' = <<>> /\ n1' = 0 /\ nq' = 1 /\ qfrom' = 1 /\ skipping' = FALSE
 
 \* every address some server ever named in a record that was NOT received in bailiwick
 BadlyNamed ==
@@ -57,12 +62,16 @@ AskProblems ==
           THEN {IF e.ip \in BadlyNamed THEN "address-from-out-of-bailiwick-record-contacted" ELSE "unknown-address-contacted"}
           ELSE {})
     \* C19_Terminates
-    \cup (IF e.phase = 1 /\ n1 + 1 > bound THEN {"too-many-upstream-queries"} ELSE {})
+    \cup (IF e.phase = 1 /\ n1 + 1 > nq * bound THEN {"too-many-upstream-queries"} ELSE {})
+    \* ... and in particular the alias lookups of a client question by MAX_CNAME_LOOKUPS
+    \cup (IF e.phase = 1 /\ ~AliasBudgetOk(Append(SubSeq(log, qfrom, Len(log)), [qn |-> e.qn, recs |-> {}]), nq)
+          THEN {"alias-lookups-exceed-limit"} ELSE {})
     \cup (IF "capped" \in DOMAIN e THEN {"did-not-terminate"} ELSE {})
 
 AskUpdate ==
     /\ log' = Append(log, [ip |-> e.ip, qn |-> e.qn, qt |-> e.qt, recs |-> Range(e.recs)])
     /\ n1' = IF e.phase = 1 THEN n1 + 1 ELSE n1
+    /\ UNCHANGED <<nq, qfrom>>
 
 \* result and probe: what is handed to a caller
 HandedProblems(what) ==
@@ -77,6 +86,9 @@ Problems ==
       [] e.ev = "result" -> HandedProblems("returned")
       [] e.ev = "probe"  -> HandedProblems("served-from-cache")
       [] e.ev = "end"    -> {}
+      [] e.ev = "question" -> {}
+      \* C19_Filters, the filter itself
+      [] e.ev = "acs"    -> IF e.denied # Denied(AcsOf(e.acs), e.addr) THEN {"address-filter-verdict-wrong"} ELSE {}
       \* C19_StubDepth
       [] e.ev = "stub"   -> (IF e.kind = "runaway" THEN {"did-not-terminate"} ELSE {})
                             \cup (IF ~StubQueriesOk(e.asked) THEN {"stub-alias-chase-exceeds-hop-limit"} ELSE {})
@@ -84,6 +96,9 @@ Problems ==
 
 Update ==
     CASE e.ev = "ask" -> AskUpdate /\ UNCHANGED <<caseId, net, lim, bound>>
+      \* a new (batch of) client question(s): the per-question counters start again
+      [] e.ev = "question" -> /\ nq' = e.n /\ qfrom' = Len(log) + 1 /\ n1' = 0
+                              /\ UNCHANGED <<caseId, net, lim, bound, log>>
       [] OTHER        -> UNCHANGED state
 
 Matched == ~skipping /\ e.ev # "reset" /\ Problems = {} /\ Update /\ UNCHANGED skipping
@@ -102,7 +117,7 @@ Detail ==
 Reject ==
     /\ ~skipping /\ e.ev # "reset" /\ Problems # {}
     /\ PrintT(<<"MISMATCH", ToJson([case |-> caseId, line |-> l, event |-> e, problems |-> Problems, detail |-> Detail,
-                                     inj |-> net.inj, denyS |-> net.denyS, denyA |-> net.denyA])>>)
+                                     denyS |-> net.denyS, denyA |-> net.denyA])>>)
     /\ skipping' = TRUE /\ UNCHANGED state
 
 Skip == skipping /\ e.ev # "reset" /\ UNCHANGED <<state, skipping>>
